@@ -64,3 +64,112 @@ class QueueCheck:
 
 
 reg(QueueCheck())
+
+
+# ---------------------------------------------------------------------- C16
+class C16World:
+    pass
+
+
+class C16Check:
+    cid = "C16"
+    level = "exploration"
+    chunk = 40
+    rule = ("cases = (pool class in {TaskPool, SimpleTaskPool, two subclasses adding a public method and properties}) x terminal width (80 plus widths sampled from 10..400 at which a "
+            "plain argparse parser can format help); each case performs the JSON handshake on a real ControlSession, then asks '<command> -h' for EVERY public member enumerated by inspect, "
+            "the top-level '-h', and several non-public names; non-trivial = every member help was checked; distinct = distinct (class, width)")
+    assumptions = ["in-memory transport: real asyncio.StreamReader + recording writer at the ControlSession constructor boundary (socket transports are exercised by C19)",
+                   "a terminal width is in the domain iff a plain argparse.ArgumentParser of that width can format help (calibrated per case)"]
+
+    def prepare(self):
+        from . import control, mods
+
+        self.mods = control.load_control(mods.load())
+
+    def families(self, tier):
+        return [("widths", 160 if tier == "quick" else 4000)]
+
+    def floors(self, tier):
+        return {"C16.member_help_ok": 3000, "C16.handshake_ok": 120, "C16.private_rejected": 400, "C16.command_set_exact": 100}
+
+    def timeout(self, tier):
+        return 900 if tier == "quick" else 7200
+
+    def make_case(self, fam, seed, i, tier):
+        rng = random.Random(f"{seed}:C16:{i}")
+        classes = ["TaskPool", "SimpleTaskPool", "ExtTaskPool", "ExtSimpleTaskPool"]
+        width = 80 if i % 8 < 2 else rng.choice([rng.randint(10, 40), rng.randint(20, 120), rng.randint(60, 400)])
+        return {"cls": classes[i % 4], "width": width, "name": rng.choice([None, "p", "my-pool", "ünï"])}
+
+    def run_case(self, case, verbose=False):
+        from . import c16
+
+        w = c16.World(self.mods, case)
+        r = w.run()
+        sit = r["sit"]
+        out = {"viol": r["viol"], "sit": sit, "inconclusive": r["inconclusive"],
+               "nontrivial": sit.get("C16.member_help_ok", 0) > 5,
+               "sig": f"{case['cls']}:{case['width']}",
+               "extra": {"members_checked": sit.get("C16.member_help_ok", 0)}}
+        if r["viol"]:
+            out["log_tail"] = w.log[-60:]
+        if verbose:
+            out["log"] = w.log
+        out["sample"] = {"case": case, "log_head": w.log[:12]}
+        return out
+
+
+reg(C16Check())
+
+
+# ---------------------------------------------------------------------- C18
+class C18Check:
+    cid = "C18"
+    level = "exploration"
+    chunk = 60
+    rule = ("random sessions: 1-3 simultaneous ControlSessions (various widths) on one busy TaskPool/SimpleTaskPool, 6-30 lines each drawn from: grammar-generated valid commands, "
+            "by-construction invalid lines (unknown command, missing positional, non-numeric int, unknown option, surplus positional, unresolvable dotted path), help requests, "
+            "token-level mutants of valid lines (drop/duplicate/swap/=-form/abbreviation), printable junk up to 4 kB incl. non-ASCII, and probe commands; "
+            "waiting commands are parked and released from another session; non-trivial = at least one invalid/junk line and one probe were answered; distinct = distinct scenario seed")
+    assumptions = ["in-memory transport at the ControlSession constructor boundary (real StreamReader, recording writer)",
+                   "log records are not 'printing': the logging module is disabled in the checking process, sys.stdout/sys.stderr are captured",
+                   "lines are valid UTF-8 text without embedded newlines; whitespace-only lines are never sent (they end a session like EOF)"]
+
+    def prepare(self):
+        from . import control, mods
+
+        self.mods = control.load_control(mods.load())
+
+    def families(self, tier):
+        return [("random", 600 if tier == "quick" else 30000)]
+
+    def floors(self, tier):
+        return {"C18.lines.invalid": 1000, "C18.lines.junk": 600, "C18.lines.mutant": 600, "C18.lines.help": 600, "C18.lines.valid": 1000,
+                "C18.probe_ok": 1000, "C18.isolation_ok": 1500, "C18.short_after_long": 300, "C18.waiting_released": 20}
+
+    def timeout(self, tier):
+        return 900 if tier == "quick" else 7200
+
+    def make_case(self, fam, seed, i, tier):
+        from . import c18
+
+        return c18.gen_scenario(random.Random(f"{seed}:C18:{i}"))
+
+    def run_case(self, case, verbose=False):
+        from . import c18
+
+        w = c18.World(self.mods, case)
+        r = w.run()
+        sit = r["sit"]
+        out = {"viol": r["viol"], "sit": sit, "inconclusive": r["inconclusive"],
+               "nontrivial": (sit.get("C18.lines.invalid", 0) + sit.get("C18.lines.junk", 0)) > 0 and sit.get("C18.probe_ok", 0) > 0,
+               "sig": str(case["seed"]), "extra": {"lines": sum(v for k, v in sit.items() if k.startswith("C18.lines."))}}
+        if r["viol"]:
+            out["log_tail"] = w.log[-60:]
+        if verbose:
+            out["log"] = w.log
+        out["sample"] = {"case": case, "log_head": w.log[:25]}
+        return out
+
+
+reg(C18Check())
